@@ -356,6 +356,24 @@ def report_raw_access(coh, rule_prefix):
                 ctx.violated(rule_prefix + "/VC2", g, what,
                              "`%s` are positions in the array's own flat data, but %s may still be a lazy view whose raw "
                              "buffer is the parent's" % (ast.unparse(v.elts[0]), selfp), node=n.ast, engine="E2")
+    # VC2'': the raw accessors themselves never materialise: the indices they receive were resolved against the buffer as
+    # it was when the caller computed them
+    for q in ("raggedarray.base.RaggedBase._get_data_range", "raggedarray.base.RaggedBase._set_data_range"):
+        g = ctx.program.funcs.get(q)
+        if g is None:
+            continue
+        ga = ctx.fa(g)
+        mat = None
+        for tm, targets in coh.R.callees(ga):
+            if tm.k == "call" and isinstance(tm.node, ast.Call) and coh.ts.is_materialiser_call(tm.node, ga):
+                mat = tm
+                break
+        whatr = "the raw accessor applies its index to the buffer as it is (it does not materialise the array first)"
+        if mat is None:
+            ctx.holds(rule_prefix + "/VC2", g, whatr, engine="E2")
+        else:
+            ctx.violated(rule_prefix + "/VC2", g, whatr, "`%s` replaces the buffer of a lazy view by its own cells, but the index was computed against the parent's buffer: "
+                         "the first mixed integer/slice read of a view that does not start at offset 0 returns other rows' cells" % (mat,), node=mat.node, engine="E2")
     # VC2': in __getitem__ the (index, None) results are applied to the raw buffer, not to the materialised data
     gi = ctx.program.funcs.get("raggedarray.indexablearray.IndexableArray.__getitem__")
     if gi is not None and gi.qual in coh.results:
